@@ -155,6 +155,22 @@ def _dom_attribute_keys_evaluated(ctx, f, rel, qual) -> bool:
 
 
 def run(ctx):
+    """The rules that stand on their own (R11.10 void children reported, R11.11 walk stays in the subtree) still get their say
+    when an earlier rule cannot read the code: a violation they find is reported (sa/check.py), the rest stays undecided."""
+    ctx._c11_tail_done = False
+    try:
+        _run(ctx)
+    except AnalysisError:
+        if not ctx._c11_tail_done:
+            for fn in (void_children_reported, walk_stays_in_subtree):
+                try:
+                    fn(ctx)
+                except AnalysisError:
+                    pass
+        raise
+
+
+def _run(ctx):
     r = ctx.r
     ce, repo = ctx.ce, ctx.repo
     r.explanation = ("Guards of treewalkers/base.py and filters/lint.py are evaluated as boolean functions over namespace in "
@@ -396,6 +412,7 @@ def run(ctx):
         r.check("R11.5", set(sc) == set("\t\n\x0c\r "), "space-set", "treewalkers/base.py", "walker white space is %r" % sc)
     clark_names(ctx)
     void_agreement(ctx)
+    ctx._c11_tail_done = True
     void_children_reported(ctx)
     walk_stays_in_subtree(ctx)
     from . import wslint
